@@ -1,5 +1,6 @@
 import FsDb.Proofs.Refine
 import FsDb.Proofs.SpecInv
+import FsDb.Properties.C06
 /-!
 # C13 — A finished transaction is finished: later use fails and changes nothing
 
@@ -176,6 +177,33 @@ theorem C13_late_use_concrete {c : Sys} {s : State} (h : R c s) (t : Nat) (hc : 
   have s4 := Refine.step h (.commit t) rfl
   rw [l3] at s1; rw [l4] at s2; rw [l1] at s3; rw [l5] at s4
   exact ⟨s1.1, s1.2, s2.1, s2.2, s3.1, s4.1, s4.2⟩
+
+/-- **Late reads under concurrency.**  Under every schedule of the small-step model (`Model/Conc`):
+    a Get / GetKeys through transaction `t` answers what the specification answers at a log position
+    between its call and its return (`C06_get_linearizable`, `C06_getkeys_subset`); when `t` is
+    finished or unknown at that position the answer is ErrTxNotFound — whatever the other
+    goroutines are doing, including a Commit of `t` itself that has passed its linearization point. -/
+theorem C13_concurrent_read (acts : List Conc.Act) (i t : Nat) (k : Key) (o : Out)
+    (hret : ((Conc.exec {} acts).thr i).pc = .ret o)
+    (hop : ((Conc.exec {} acts).thr i).op = some (.get t k))
+    (hc : Closed (Conc.pureAt (Conc.exec {} acts) ((Conc.exec {} acts).thr i).witAt) t) :
+    o = .err .txNotFound := by
+  obtain ⟨_, _, ho⟩ := C06.C06_get_linearizable acts i t k o hret hop
+  rw [ho]
+  have := (C13_late_use _ t hc k 0).1
+  exact congrArg Prod.snd this
+
+theorem C13_concurrent_keys (acts : List Conc.Act) (i t : Nat) (ks : List Key)
+    (hret : ((Conc.exec {} acts).thr i).pc = .ret (.keys ks))
+    (hop : ((Conc.exec {} acts).thr i).op = some (.keys t)) :
+    ¬ Closed (Conc.pureAt (Conc.exec {} acts) ((Conc.exec {} acts).thr i).witAt) t := by
+  intro hc
+  obtain ⟨W, hW, _⟩ := C06.C06_getkeys_subset acts i t ks hret hop
+  have := (C13_late_use _ t hc "" 0).2.1
+  have h2 : Spec.getKeys (Conc.pureAt (Conc.exec {} acts) ((Conc.exec {} acts).thr i).witAt) t = .err .txNotFound :=
+    congrArg Prod.snd this
+  rw [h2] at hW
+  cases hW
 
 /-- non-vacuity: the zombie-write history of corpus/seq_c13.txt on the specification -/
 example :
